@@ -367,7 +367,7 @@ class RouterDiagnosticsRead:
                 and result.counter12 == _le32at(g_block, 48) and result.counter13 == _le32at(g_block, 52)
                 and result.counter14 == _le32at(g_block, 56) and result.counter15 == _le32at(g_block, 60))
 
-from pyvc.values import TBool as _TBool14   # noqa: E402,F401
+from pyvc.values import TBool as _TBool14, TSmallSet, TTuple, TRec, TInt   # noqa: E402,F401
 
 # ---- SystemInfo.dead_links / dead_chips: one candidate (fragments) - what build_machine records as dead ------------------------------
 
